@@ -523,6 +523,8 @@ fn fault_backend<B: Backend>(opts: &Opts, rep: &mut Report) {
     if failfirst {
         let Some(op) = ops.get(opts.shard / 4) else { return };
         let class = format!("{}.{}", B::NAME, op.name);
+        // arm the progress watchdog before the first operation (it only watches once a heartbeat has been seen)
+        heartbeat(&class);
         let (r, st) = shim.window(0, -1, None, || guard(|| (op.run)()));
         let detail = |what: &str| json!({"backend": B::NAME, "operation": op.name, "mode": "the first OS draw of the process fails", "failed_draws": st.failed, "what": what});
         rep.case(&format!("{class}.first-draw-of-process-fails"), fnv(class.as_bytes()), true);
